@@ -35,6 +35,12 @@ CFG = {
         "Swat4.C12.witness_init",
         "Swat4.C12.witness_pops",
         "Swat4.C12.batch_unsorted_witness",
+        "Swat4.C12.delivered_if_live",
+        "Swat4.C12.delivered_if_live_final",
+        "Swat4.C12.handed_at_most_one",
+        "Swat4.C12.lost_if_dies",
+        "Swat4.C12.witnessOne_init",
+        "Swat4.C12.lost_if_dies_done",
     ],
     "shards": (4, 16),
     "nontrivial": _nontrivial,
@@ -60,7 +66,14 @@ CFG = {
                 "ready time of its enqueue), at_most_once, batch_size (<= n at every pc), not_early (monotone clock: ready <= clock at the pop "
                 "batch), not_late (returned => no expiry or expiry >= clock at the pop batch; otherwise counted), no_leak_run / no_leak_finish "
                 "(C10 invariant at every reachable state), conservation_final / timing_final (same in the state after the driver's completion "
-                "phase), never_queued, enqueue_one_batch, enqueue_uses_fresh, pop_nonpositive. Batch order: the unconditional statement is false "
+                "phase), never_queued, enqueue_one_batch, enqueue_uses_fresh, pop_nonpositive. Exactly one consumer: delivered_if_live / "
+                "delivered_if_live_final (every accepted enqueue is either still queued, or in exactly one pop record of exactly one started PopMany "
+                "consumer with the same probe/expiry/ready time; if that record is unexpired at the clock of its pop batch it was appended to the "
+                "batch, its id occurs exactly once among all returned records - once in that consumer's, in no other's - the consumer holds the "
+                "payload at every later pc, and if the consumer is not dead and has finished, the entry has been handed to it and to nobody else; "
+                "stated on records/ids because batches are payload lists and payloads may repeat), handed_at_most_one; the hypothesis 'no consumer "
+                "dies while holding it' is necessary: lost_if_dies / lost_if_dies_done (consumer dies right after its pop batch: the probe is in the "
+                "pop log and in nobody's returned batch). Batch order: the unconditional statement is false "
                 "(batch_unsorted_witness: a checked 4-event schedule returning ready times [50, 10]); proved partials batch_sorted_seq (no enqueue "
                 "executes during the call) and batch_sorted_conc (every enqueue during the call has ready >= clock when it executes, monotone "
                 "clock). The correspondence run decides that the model is the code and evaluates the same predicates on the implementation's "
